@@ -2,8 +2,10 @@ package main
 
 import (
 	"fmt"
+	"os"
 	"go/token"
 	"go/types"
+	"strings"
 
 	"golang.org/x/tools/go/ssa"
 )
@@ -356,4 +358,266 @@ func inConeOf(p *Prog, root, f *ssa.Function) bool {
 		}
 	}
 	return false
+}
+
+// rejectionReasons: before the handler runs, the dispatcher answers a request with an error only for
+// the reasons the protocol names: the method (and its alias) is unknown, the transport cannot carry its
+// channel result, or its params are malformed, of the wrong count or undecodable. Structurally: at every
+// error reply that is not preceded by the user call, each controlling condition that depends on the
+// request at all is (a) the comma-ok result of a table lookup, or (b) derived from the request's params
+// (the params field, the slice decoded from it, a decoder's error). A condition that looks at the id
+// ("a notification may not address a method with a result") or at the method name other than through
+// the tables ("this name is not a valid metrics tag") rejects requests the property says must execute.
+func (c *Ctx) rejectionReasons(rule string) {
+	p, r := c.P, c.R
+	d := r.FnDisp
+	if d == nil || r.TReq == nil {
+		c.und(rule, "dispatcher", "-", "not resolved")
+		return
+	}
+	var paramsField *types.Var
+	if st := structOf(r.TReq); st != nil {
+		for i := 0; i < st.NumFields(); i++ {
+			if strings.Contains(st.Tag(i), `json:"params`) {
+				paramsField = st.Field(i)
+			}
+		}
+	}
+	n := 0
+	for _, g := range p.cone(d) {
+		for _, u := range r.FnUser {
+			if g == u {
+				g = nil
+			}
+		}
+		if g == nil {
+			continue
+		}
+		dec := decodedAllocs(g)
+		isReqValue := func(v ssa.Value) bool {
+			t := v.Type()
+			if pt, ok := t.Underlying().(*types.Pointer); ok {
+				t = pt.Elem()
+			}
+			if t != types.Type(r.TReq) {
+				return false
+			}
+			switch v.(type) {
+			case *ssa.Parameter, *ssa.Alloc:
+				return true
+			}
+			return false
+		}
+		// what a table lookup yields (the method descriptor, a decoder) is the table's data, not the request's
+		tableData := map[ssa.Value]bool{}
+		allInstrsRaw(g, func(in ssa.Instruction) {
+			if lk, ok := in.(*ssa.Lookup); ok {
+				if _, isMap := lk.X.Type().Underlying().(*types.Map); isMap {
+					if !lk.CommaOk {
+						tableData[lk] = true
+					} else if lk.Referrers() != nil {
+						for _, ref := range *lk.Referrers() {
+							if ex, ok := ref.(*ssa.Extract); ok && ex.Index == 0 {
+								tableData[ex] = true
+							}
+						}
+					}
+				}
+			}
+		})
+		// … also when a helper did the lookup (lookupMethod(name) (descriptor, bool))
+		isTableRoot := func(a apath) bool {
+			switch x := a.Root.(type) {
+			case *ssa.Lookup:
+				_, isMap := x.X.Type().Underlying().(*types.Map)
+				return isMap
+			case *ssa.Extract:
+				lk, ok := x.Tuple.(*ssa.Lookup)
+				return ok && x.Index == 0 && lk.CommaOk
+			case *ssa.Const:
+				return true // the zero descriptor returned with "not found"
+			case *ssa.Alloc:
+				return true // a zero-valued local returned with "not found"
+			}
+			return false
+		}
+		allInstrsRaw(g, func(in ssa.Instruction) {
+			call, ok := in.(*ssa.Call)
+			if !ok {
+				return
+			}
+			if h := staticCallee(call); h == nil || !p.allFns[h] {
+				return
+			}
+			cands := []ssa.Value{call}
+			if call.Referrers() != nil {
+				for _, ref := range *call.Referrers() {
+					if ex, ok := ref.(*ssa.Extract); ok {
+						cands = append(cands, ex)
+					}
+				}
+			}
+			for _, v := range cands {
+				if _, isTuple := v.Type().(*types.Tuple); isTuple {
+					continue
+				}
+				if _, isBasic := v.Type().Underlying().(*types.Basic); isBasic {
+					continue
+				}
+				sawLookup := false
+				if c.allOrigins(v, func(a apath) bool {
+					if !isTableRoot(a) {
+						return false
+					}
+					switch a.Root.(type) {
+					case *ssa.Lookup, *ssa.Extract:
+						sawLookup = true
+					}
+					return true
+				}) && sawLookup {
+					tableData[v] = true
+				}
+			}
+		})
+		fromRequest := func(v ssa.Value) bool {
+			seen := map[ssa.Value]bool{}
+			for k := range tableData {
+				seen[k] = true
+			}
+			return c.dependsOn(v, isReqValue, 0, seen)
+		}
+		var fromParams func(v ssa.Value) bool
+		fromParams = func(v ssa.Value) bool {
+			return c.dependsOn(v, func(x ssa.Value) bool {
+				if al, ok := x.(*ssa.Alloc); ok {
+					if _, isDec := dec[al]; isDec {
+						return true
+					}
+				}
+				if paramsField != nil {
+					if f := loadedField(x); f == paramsField {
+						return true
+					}
+					if fa, ok := x.(*ssa.FieldAddr); ok && fieldOfAddr(fa) == paramsField {
+						return true
+					}
+					if fl, ok := x.(*ssa.Field); ok && fieldOfField(fl) == paramsField {
+						return true
+					}
+				}
+				return false
+			}, 0, map[ssa.Value]bool{})
+		}
+		isLookupOK := func(v ssa.Value) bool {
+			return c.allOrigins(v, func(a apath) bool {
+				ex, ok := a.Root.(*ssa.Extract)
+				if !ok || len(a.Fields) != 0 || ex.Index != 1 {
+					return false
+				}
+				lk, ok := ex.Tuple.(*ssa.Lookup)
+				return ok && lk.CommaOk
+			})
+		}
+		// results of helpers: the "found" flag next to a descriptor that is table data; the error (and code)
+		// of a helper that decodes the params
+		helperOK := map[ssa.Value]bool{}
+		allInstrsRaw(g, func(in ssa.Instruction) {
+			call, ok := in.(*ssa.Call)
+			if !ok || call.Referrers() == nil {
+				return
+			}
+			h := staticCallee(call)
+			if h == nil || !p.allFns[h] {
+				return
+			}
+			var exts []*ssa.Extract
+			hasTable := false
+			for _, ref := range *call.Referrers() {
+				if ex, ok := ref.(*ssa.Extract); ok {
+					exts = append(exts, ex)
+					if tableData[ex] {
+						hasTable = true
+					}
+				}
+			}
+			decodes := false
+			p.coneInstrs(h, func(x ssa.Instruction) {
+				if ci, ok := x.(ssa.CallInstruction); ok && decodeTarget(ci) != nil {
+					decodes = true
+				}
+				if v, ok := x.(ssa.Value); ok && paramsField != nil && loadedField(v) == paramsField {
+					decodes = true
+				}
+			})
+			for _, ex := range exts {
+				if tableData[ex] {
+					continue
+				}
+				if hasTable || decodes {
+					helperOK[ex] = true
+				}
+			}
+			if len(exts) == 0 && decodes {
+				helperOK[call] = true
+			}
+		})
+		fromParams0 := fromParams
+		fromParams = func(v ssa.Value) bool {
+			if fromParams0(v) {
+				return true
+			}
+			return c.dependsOn(v, func(x ssa.Value) bool { return helperOK[x] }, 0, map[ssa.Value]bool{})
+		}
+		allInstrsRaw(g, func(in ssa.Instruction) {
+			if !c.isErrFnCall(in) {
+				return
+			}
+			if mustPrecedeIP(in, c.isUserCall, 0) {
+				return // a reply after the handler ran
+			}
+			n++
+			construct := fmt.Sprintf("%s: rejection before the handler runs", fname(g))
+			var odd ssa.Value
+			for _, cf := range expandConds(impliedCondsIP(in.Block(), 0)) {
+				v := cf.Cond
+				for {
+					u, ok := v.(*ssa.UnOp)
+					if !ok || u.Op != token.NOT {
+						break
+					}
+					v = u.X
+				}
+				if !fromRequest(v) {
+					continue // configuration, descriptor, mode: not about this request
+				}
+				if isLookupOK(v) || fromParams(v) {
+					continue
+				}
+				// a comparison whose request-dependent side is a lookup result or params-derived
+				if bo, ok := v.(*ssa.BinOp); ok {
+					good := true
+					for _, side := range []ssa.Value{bo.X, bo.Y} {
+						if fromRequest(side) && !isLookupOK(side) && !fromParams(side) {
+							good = false
+						}
+					}
+					if good {
+						continue
+					}
+				}
+				odd = v
+				if os.Getenv("JRP_DEBUG") == "rej" {
+					fmt.Fprintf(os.Stderr, "rej: %s cond %s = %s\n", c.ipos(in), v.Name(), v.String())
+				}
+			}
+			if odd != nil {
+				c.bad(rule, construct, c.ipos(in), "this error reply is controlled by a condition on the request that is neither a table lookup nor derived from its params (it looks at the id, or at the method name outside the method/alias tables): requests the protocol says must run — a notification to a method with a result, a method whose name is not plain ASCII — are refused instead")
+			} else {
+				c.ok(rule, construct, c.ipos(in), "controlled only by table lookups, params-derived tests and request-independent conditions")
+			}
+		})
+	}
+	if n == 0 {
+		c.und(rule, "rejections before the handler", "-", "none found")
+	}
 }
